@@ -302,10 +302,15 @@ def check_fixed_point(env, final):
     smtlib.collect_information(final)
     # every enabled mutator, taken from the registries (not from the pass
     # lists of the strategy under test)
-    names = []
+    # fresh instances built from the classes themselves (an instance that
+    # went through the run may carry state, e.g. an 'ident' restriction)
+    from ddsmt import options as _options
+    muts = []
     for g, (mod, reg) in _mutators.get_all_mutators().items():
-        names.extend(reg)
-    muts = _mutators.get_mutators(names)
+        for cls, opt in reg.items():
+            if getattr(_options.args(), 'mutator_' + opt.replace('-', '_'),
+                       True):
+                muts.append(getattr(mod, cls)())
     level = list(final)
     order = []
     while level:
